@@ -155,8 +155,19 @@ const FLOATS: [u64; 16] = [
     0x3810000000000000, // f32::MIN_POSITIVE widened
 ];
 
+/// text with a special beginning: byte order mark, zero-width and line-separator characters,
+/// text that looks like a JSON literal or number
+const TEXT_HEADS: [&str; 10] = ["\u{feff}", "\u{200b}", "\u{2028}", "\u{fffd}", "null", "true", "-1", "1e5", "0x", " "];
+
 fn utf8_fill(n: usize, e: &mut Ent) -> Vec<u8> {
     let mut v = Vec::with_capacity(n);
+    let h = e.next();
+    if h < 40 {
+        let head = TEXT_HEADS[h as usize % TEXT_HEADS.len()].as_bytes();
+        if head.len() <= n {
+            v.extend_from_slice(head);
+        }
+    }
     while v.len() < n {
         let b = e.next();
         let left = n - v.len();
@@ -230,6 +241,8 @@ pub fn gen_value(dt: &FieldDataType, n: usize, e: &mut Ent, utf8_only: bool) -> 
             (0..n).map(|i| b.wrapping_add((i as u8).wrapping_add(1))).collect()
         }
         8 if *dt == FieldDataType::String => utf8_fill(n, e),
+        // one-byte fields are mostly small enumerations (direction, end reason, IP version)
+        8 | 9 if n == 1 => vec![e.next() % 8],
         _ => (0..n).map(|_| e.next()).collect(),
     }
 }
@@ -878,7 +891,12 @@ pub fn fixed_plan(max_recs: usize) -> BoxedStrategy<PktPlan> {
         1 => any::<u8>().prop_map(|b| (0..52u8).map(|i| b.wrapping_add(i.wrapping_mul(3).wrapping_add(1))).collect::<Vec<u8>>()),
         1 => prop_oneof![Just(vec![0u8; 52]), Just(vec![0xffu8; 52]), Just(vec![0x80u8; 52])],
     ];
-    (any::<bool>(), vec(any::<u8>(), 20), vec(rec, 0..=max_recs))
+    // one packet in twelve carries a record count around the Cisco maximum (30 / 28)
+    let recs = prop_oneof![
+        11 => vec(rec.clone(), 0..=max_recs),
+        1 => vec(rec, 24..=34),
+    ];
+    (any::<bool>(), vec(any::<u8>(), 20), recs)
         .prop_map(|(v7, hdr, recs)| PktPlan::Fixed { v7, hdr, recs })
         .boxed()
 }
